@@ -66,7 +66,7 @@ def allowedMethods : List Route → List Str → List Str
 def bodylessMethods : List Str := ["POST", "PUT", "PATCH"].map String.toList
 
 /-- which stage of `detectRoute` decided (the driver reports it as a coverage tag) -/
-inductive Stage where
+inductive DetectStage where
   | conds | method | contentType | accept | ok
   deriving DecidableEq, Repr
 
